@@ -68,6 +68,9 @@ def run(rep: Report, ctx: Any) -> str:
                       "a property that is not required, on the path where the popped source is the UNSET sentinel the local handed to "
                       "`cls(...)` ends up as the source / UNSET itself - never as a fresh value (a literal, a constant, the result of a "
                       "call); decided on the generated text per valuation of the template conditions, macro calls followed")
+    rep.rule("R10.13", "decoding keeps 'present' present: in the same generated code, on the path where the popped source is NOT the UNSET "
+                       "sentinel (whatever else it is: null, empty, zero - its truth value is not known) the local handed to `cls(...)` never "
+                       "ends up as UNSET; only a test for the sentinel itself (isinstance(..., Unset) / `is UNSET`) may select UNSET")
     rep.rule("R10.4", "the union parser returns None before trying any member exactly when None is among its JSON types; "
                       "handle_nullable covers type scalar / type list / oneOf / anyOf / allOf")
     rep.rule("R10.5", "query parameters are dropped only by identity with UNSET or None; a cookie or header is written outside the block "
@@ -373,6 +376,8 @@ def run(rep: Report, ctx: Any) -> str:
                 continue
             if path_returns_error(p, errs) or any(r is x for x in bad_returns):
                 continue
+            if fw.holds_no_declaration(f, PathSim(f.node).resolve(r.value, p.end_state)):
+                continue
             bad_returns.append(r)
         rep.check(not bad_returns, "R10.8", f"{short(f)}::requiredness-forwarded",
                   f"a path returns `{norm(bad_returns[0].value)[:60] if bad_returns else ''}` without having passed on the requiredness of the "
@@ -424,6 +429,7 @@ def run(rep: Report, ctx: Any) -> str:
         free = [a for a in names_ if a not in fixed]
         rep.require(len(free) <= 12, f"a decoder that depends on at most 12 conditions ({key})")
         fresh: list[str] = []
+        lost: list[dict[str, bool]] = []
         assigned = parsed = 0
         for env0 in tplq.assignments(free):
             env = {**env0, **fixed}
@@ -440,6 +446,8 @@ def run(rep: Report, ctx: Any) -> str:
             for v in sorted(vals):
                 if v.startswith("FRESH:") and v[6:] not in fresh:
                     fresh.append(v[6:])
+            if vals and "SENT" in _GenRun(unset_falsy, present=True).result(tree_, DEST):
+                lost.append({a: v for a, v in env.items() if v})
         rep.require(parsed, f"generated code of {key} that parses as Python for some valuation")
         if not assigned:
             return   # nothing is assigned here: the decoder is elsewhere
@@ -447,6 +455,12 @@ def run(rep: Report, ctx: Any) -> str:
         rep.check(not fresh, "R10.9", key, f"for a property that is not required, an absent key (source UNSET) is decoded to a fresh value "
                   f"({', '.join(fresh[:3])}) instead of UNSET: 'absent' reads back as 'present'", where=at_, lhs=fresh[:3],
                   rhs="the source / UNSET itself on the UNSET path")
+        rep.check(not lost, "R10.13", key.replace("unset-passes-through", "present-stays-present"),
+                  "for a property that is not required, a key that is there can be decoded to UNSET: on the path where the source is "
+                  "not the sentinel the destination may still end as UNSET (a test of the source other than for the sentinel - its "
+                  "truth value, say - decides): 'present' (empty, zero, null) reads back as 'absent' and is not sent again"
+                  f"{' (when ' + ' and '.join(sorted(lost[0]))[:80] + ')' if lost and lost[0] else ''}", where=at_, lhs=lost[:1],
+                  rhs="UNSET only under isinstance(<source>, Unset) / `is UNSET`")
 
     for tn, ti in sorted(jx.templates.items()):
         m = ti.macros.get("construct") if tn.startswith(TEMPLATE_DIR) else None
@@ -1725,8 +1739,11 @@ class _GenRun:
 
     LIMIT = 64
 
-    def __init__(self, unset_falsy: bool):
+    def __init__(self, unset_falsy: bool, present: bool = False):
         self.unset_falsy = unset_falsy
+        # present=True: the run on the other path - SOURCE is a value that was there (anything but the sentinel: possibly null,
+        # empty, zero), "SRC" stands for it and the sentinel read from `UNSET` is a value of its own, "SENT"
+        self.present = present
         self.funcs: dict[str, ast.FunctionDef] = {}
 
     def result(self, tree: ast.Module, var: str) -> set[str]:
@@ -1803,7 +1820,7 @@ class _GenRun:
     def value(self, e: ast.expr, env: dict, depth: int) -> set[str]:
         if isinstance(e, ast.Name):
             if e.id in (SOURCE, "UNSET"):
-                return {"SRC"}
+                return {"SENT"} if self.present and e.id == "UNSET" else {"SRC"}
             if e.id == UNKNOWN:
                 # a template expression in value position that is not the source (a default, a constant of the document, ...)
                 return {"FRESH:<template expression>"}
@@ -1844,6 +1861,14 @@ class _GenRun:
             return out
         if isinstance(e, ast.BoolOp):
             vals = [self.value(v, env, depth) for v in e.values]
+            if self.present:
+                # whether the value that was there is truthy is not known; the sentinel is falsy
+                falsy = {"SENT"} if self.unset_falsy else set()
+                if isinstance(e.op, ast.Or):
+                    return set(vals[-1]).union(*[v - falsy for v in vals[:-1]])
+                if vals[0] and vals[0] <= falsy:
+                    return set(vals[0])
+                return set().union(*vals)
             if isinstance(e.op, ast.Or):
                 # `a or b` is b when a is falsy - the sentinel is
                 out = set(vals[-1])
@@ -1858,7 +1883,11 @@ class _GenRun:
     def test(self, e: ast.expr, env: dict, depth: int) -> "bool | None":
         def is_sentinel(x: ast.expr) -> "bool | None":
             vs = self.value(x, env, depth)
+            if self.present:
+                return True if vs == {"SENT"} else False if vs and all(v == "SRC" or v.startswith("FRESH:") for v in vs) else None
             return True if vs == {"SRC"} else False if vs and all(v.startswith("FRESH:") for v in vs) else None
+
+        absent = {"SENT"} if self.present else {"SRC"}   # what the sentinel reads as in this run
 
         if isinstance(e, ast.UnaryOp) and isinstance(e.op, ast.Not):
             t_ = self.test(e.operand, env, depth)
@@ -1872,7 +1901,7 @@ class _GenRun:
             kinds = [norm(x) for x in (e.args[1].elts if isinstance(e.args[1], ast.Tuple) else [e.args[1]])]
             if kinds == ["Unset"]:
                 return is_sentinel(e.args[0])
-            if "Unset" not in kinds and self.value(e.args[0], env, depth) == {"SRC"}:
+            if "Unset" not in kinds and self.value(e.args[0], env, depth) == absent:
                 return False
             return None
         if isinstance(e, ast.Compare) and len(e.ops) == 1 and isinstance(e.ops[0], (ast.Is, ast.IsNot)):
@@ -1882,10 +1911,10 @@ class _GenRun:
                 if norm(b) == "UNSET":
                     t_ = is_sentinel(a)
                     return None if t_ is None else (t_ == pos)
-                if norm(b) == "None" and self.value(a, env, depth) == {"SRC"}:
+                if norm(b) == "None" and self.value(a, env, depth) == absent:
                     return not pos
             return None
-        if isinstance(e, (ast.Name, ast.NamedExpr)) and self.unset_falsy and self.value(e, env, depth) == {"SRC"}:
+        if isinstance(e, (ast.Name, ast.NamedExpr)) and self.unset_falsy and self.value(e, env, depth) == absent:
             return False
         return None
 
@@ -1905,6 +1934,7 @@ class _Forwarding:
         self._params: dict[str, list[str]] = {}
         self._locals: dict[str, Locals] = {}
         self._src: dict[str, set[str]] = {}
+        self._decl_types: "set[str] | None" = None
         # parameters whose `.required` a function forwards, directly; then through one and two levels of delegation
         self.decl_params: dict[str, set[str]] = {g.qual: set() for g in ix.all_functions}
         for _ in range(3):
@@ -1971,6 +2001,52 @@ class _Forwarding:
                 if pn in self.decl_params.get(g.qual, ()) and isinstance(a, ast.Name) and a.id in ps_f and a.id not in ("self", "cls"):
                     out.add(f"{a.id}.required")
         return out
+
+    def _declaration_types(self) -> set[str]:
+        """names under which a value that has a requiredness can be annotated: the classes of the package with a field `required`,
+        their subclasses and bases, the module-level aliases made of them, and the types that admit anything"""
+        if self._decl_types is None:
+            ix = self.ix
+            names = {"Any", "object"}
+            for k in ix.classes.values():
+                if "required" in ix.all_fields(k):
+                    names |= {b.name for b in ix.mro(k)}
+            for _ in range(2):
+                for m in ix.modules.values():
+                    for nm, v in m.variables.items():
+                        if v is not None and self._ann_names(v) & names:
+                            names.add(nm)
+            self._decl_types = names
+        return self._decl_types
+
+    @staticmethod
+    def _ann_names(a: "ast.AST | None") -> set[str]:
+        out: set[str] = set()
+        for n in ast.walk(a) if a is not None else ():
+            if isinstance(n, ast.Name):
+                out.add(n.id)
+            elif isinstance(n, ast.Attribute):
+                out.add(n.attr)
+            elif isinstance(n, ast.Constant) and isinstance(n.value, str):
+                out |= set(re.findall(r"[A-Za-z_]\w*", n.value))
+        return out
+
+    def holds_no_declaration(self, f: Any, v: "ast.AST | None") -> bool:
+        """v builds a record that by its declared types cannot carry a requiredness: an instance of a class of the package that has
+        no `required` itself, every field of which is annotated, none with a type that has one (or with Any / object).  Such a
+        result - the findings of an analysis phase, say - is no declaration; what is made of it is the receiver's business"""
+        if not isinstance(v, ast.Call):
+            return False
+        r = self.ix.resolve(f.module, call_name(v))
+        if not r or r[0] != "class":
+            return False
+        k = r[1]
+        fields = self.ix.all_fields(k)
+        decl = self._declaration_types()
+        if not fields or k.name in decl or len(v.args) + len(v.keywords) > len(fields) or any(kw.arg is None for kw in v.keywords) \
+                or any(isinstance(a, ast.Starred) for a in v.args):
+            return False
+        return all(a is not None and not (self._ann_names(a) & decl) for a in fields.values())
 
     def in_expr(self, f: Any, e: ast.AST) -> set[str]:
         out: set[str] = set()
